@@ -296,6 +296,9 @@ def check_case(case, ctx):
             with monitor.suspended():
                 c = netgen.build(host)
             ctx.count('host:' + case['mode'])
+            _uc = random.Random(repr(case.get('rseed')) + 'under_construction')
+            if _uc.random() < 0.3:
+                A.under_construction(c, _uc, ctx)
             ops = case['operands']
             if case.get('live') and len(ops) == 1:
                 # the caller's own list object: the live input / output list of the host (generate_* do this)
